@@ -861,6 +861,8 @@ typedef struct parser {
     expr_t	       *prs_head;	/* expression list head */
     expr_t	       *prs_tail;	/* expression list tail */
     vnaproperty_t      *prs_collection;	/* if last elem is map/list */
+    vnaproperty_t      *prs_undo_list;	/* list of first insert/append */
+    int			prs_undo_index;	/* index of inserted element */
 } parser_t;
 
 /*
@@ -877,6 +879,25 @@ static void parser_free(parser_t *parser)
     }
     free((void *)parser->prs_scn.scn_input);
     parser->prs_scn.scn_input = NULL;
+}
+
+/*
+ * parser_undo: remove the element an insert or append subscript added
+ *   @parser: pointer to parser state structure
+ *
+ * Called when a set fails after parse_and_descend inserted a new list
+ * element: everything created below the first inserted element is new,
+ * so deleting that element restores the list the caller had.
+ */
+static void parser_undo(parser_t *parser)
+{
+    if (parser->prs_undo_list != NULL) {
+	int saved_errno = errno;
+
+	(void)list_delete(parser->prs_undo_list, parser->prs_undo_index);
+	parser->prs_undo_list = NULL;
+	errno = saved_errno;
+    }
 }
 
 /*
@@ -1329,6 +1350,10 @@ static vnaproperty_t **parse_and_descend(parser_t *parser,
 		if ((anchor = list_insert(node, exp->u.ex_index)) == NULL) {
 		    goto error;
 		}
+		if (parser->prs_undo_list == NULL) {
+		    parser->prs_undo_list = node;
+		    parser->prs_undo_index = exp->u.ex_index;
+		}
 		node = *anchor;
 		continue;
 
@@ -1340,6 +1365,10 @@ static vnaproperty_t **parse_and_descend(parser_t *parser,
 		collection = node;
 		if ((anchor = list_append(node)) == NULL) {
 		    goto error;
+		}
+		if (parser->prs_undo_list == NULL) {
+		    parser->prs_undo_list = node;
+		    parser->prs_undo_index = list_count(node) - 1;
 		}
 		node = *anchor;
 		continue;
@@ -1369,6 +1398,7 @@ static vnaproperty_t **parse_and_descend(parser_t *parser,
     return anchor;
 
 error:
+    parser_undo(parser);
     parser_free(parser);
     return NULL;
 }
@@ -1691,6 +1721,9 @@ int vnaproperty_vset(vnaproperty_t **rootptr, const char *format, va_list ap)
     rv = 0;
 
 out:
+    if (rv == -1) {
+	parser_undo(&parser);
+    }
     parser_free(&parser);
     return rv;
 }
